@@ -219,7 +219,7 @@ class FormattedValue(ExpressionPrinter):
     def visit_Bytes(self, node):
         if self.printer.previous_token in [TokenTypes.Identifier, TokenTypes.Keyword, TokenTypes.SoftKeyword]:
             self.printer.delimiter(' ')
-        self.printer.append(str(Bytes(node.s, self.allowed_quotes)), TokenTypes.NonNumberLiteral)
+        self.printer.append(str(Bytes(node.s, self.allowed_quotes, self.pep701)), TokenTypes.NonNumberLiteral)
 
     def visit_JoinedStr(self, node):
         assert isinstance(node, ast.JoinedStr)
@@ -308,6 +308,10 @@ class Str(object):
         if self._s == '':
             return str(min(self.allowed_quotes, key=len)) * 2
 
+        if self.pep701 and '\0' in self._s:
+            # Since PEP 701 the expression part may contain backslashes and any quote
+            return repr(self._s)
+
         if '\0' in self._s or ('\\' in self._s and not self.pep701):
             raise ValueError('Impossible to represent a character in f-string expression part')
 
@@ -377,10 +381,11 @@ class Bytes(object):
 
     """
 
-    def __init__(self, b, allowed_quotes):
+    def __init__(self, b, allowed_quotes, pep701=False):
         self._b = b
         self.allowed_quotes = allowed_quotes
         self.current_quote = None
+        self.pep701 = pep701
 
     def _can_quote(self, c):
         if self.current_quote is None:
@@ -426,6 +431,10 @@ class Bytes(object):
     def __str__(self):
         if self._b == b'':
             return 'b' + str(min(self.allowed_quotes, key=len)) * 2
+
+        if self.pep701 and any(c in b'\0\\\n\r' or c >= 0x80 for c in bytearray(self._b)):
+            # Since PEP 701 the expression part may contain backslashes and any quote
+            return repr(self._b)
 
         if b'\0' in self._b or b'\\' in self._b:
             raise ValueError('Impossible to represent a %r character in f-string expression part')
